@@ -88,6 +88,12 @@ def opsLegal : List ULOp → Bool
   | .sync sp :: r => specLegal sp && opsLegal r
   | .acquire _ _ :: r => opsLegal r
 
+/-- the spec in force after a history (`cur` before it) -/
+def lastSpec : Spec → List ULOp → Spec
+  | cur, [] => cur
+  | _, .sync sp :: r => lastSpec sp r
+  | cur, .acquire _ _ :: r => lastSpec cur r
+
 /-- every schema of the spec in force is served as configured -/
 def allInForce {β : Type} (O : BOps β) (u : UL β) : Bool :=
   u.current.all fun x => inForceOK x.2 (see O (u.load x.1))
